@@ -16,7 +16,7 @@ CLAIMED = {
    note="Bounds as C01. Pairs outside the 17 listed are outside the claim; changing a field's type is documented as unsupported.",
    design="DESIGN.md §4 C03"),
  "C04": dict(
-   text="Bounded model checking of decoder totality: for 33 target types (every Read implementation) and their descriptors, Unmarshal / Descriptor.Read run symbolically on a byte string whose length (0..4 quick, 0..6 thorough) is enumerated and whose every byte is a free 8-bit symbol, with and without spare capacity behind the slice (spare bytes poisoned: any read is a violation). Every implicit run-time check (index, slice bounds incl. negative after int(uint64), nil, type confusion of unsafe casts), every allocation request (must stay within 4096*(len+1) bytes) and every loop (unwinding bound len+8) is a solver query on every path.",
+   text="Bounded model checking of decoder totality: for 33 target types (every Read implementation) and their descriptors, Unmarshal / Descriptor.Read run symbolically on a byte string whose length (0..4 quick, 0..6 thorough) is enumerated and whose every byte is a free 8-bit symbol, with and without spare capacity behind the slice (spare bytes poisoned: any read is a violation). Every implicit run-time check (index, slice bounds incl. negative after int(uint64), nil, type confusion of unsafe casts), every allocation request (must stay within 4096*(len+1) bytes) and every loop (unwinding bound len+16) is a solver query on every path.",
    note="Outside the bound: inputs longer than stated, targets not listed (JSON-any codecs are under C16). Wall-clock promptness is represented by the unwinding bound. One committed known finding: Descriptor() of recursive types overflows the stack.",
    design="DESIGN.md §4 C04"),
  "C05": dict(
